@@ -131,6 +131,7 @@ pub fn check(prop: P, case: &Case, cfg: &RunCfg, order: (usize, u64, u32), acc: 
             acc.count("wall_limit_hits_reproduced");
         } else {
             acc.count("wall_limit_hits_not_reproduced");
+            crate::sweep::NOT_REPRODUCED.fetch_add(1, std::sync::atomic::Ordering::SeqCst);
         }
     }
     let nl = learnt_count(&res.dump);
